@@ -44,12 +44,7 @@ def double_percent(case):
     return any(isinstance(case.get(k), str) and '%%' in ''.join(case[k].split('"')[::2]) for k in ('text', 'export', 'export_text'))
 
 
-def blank_listing(case):
-    """the two exports differ only in blank cells that one of them lists explicitly (as '#EMPTY')"""
-    return case.get('kind') == 'exports-differ' and bool(case.get('only_blank_listings'))
-
-
-SIGNATURES = {'newline_join': newline_text, 'sign_run': sign_run, 'double_percent': double_percent, 'blank_listing': blank_listing}
+SIGNATURES = {'newline_join': newline_text, 'sign_run': sign_run, 'double_percent': double_percent}
 
 
 def new_run():
@@ -216,15 +211,18 @@ def check(run):
         pend.append((e1, case))
         req.append('parse ' + enc(text))           # the model's rendering of the original text is the export
         pend.append((e1, dict(case, compared='model rendering of the original text')))
-    # known-finding witnesses
+    # regression input of the repaired defect export-blank-listing (fixed entry in known_findings.json)
     try:
         wd = json.load(open(os.path.join(common.VERIF, 'known_witnesses', 'c09_blank_listing.json')))
         m1 = ExcelModel().from_dict(wd); m1.calculate(); x1 = m1.to_dict()
         m2 = ExcelModel().from_dict(json.loads(json.dumps(x1, default=str))); m2.calculate(); x2 = m2.to_dict()
-        grown = sorted(set(x2) - set(x1))
-        run.replay_witness('export-blank-listing', bool(grown) and all(x2[g] == '#EMPTY' for g in grown), {'witness': 'known_witnesses/c09_blank_listing.json', 'listed_only_by_second_export': grown})
+        run.count(1, 'regression:c09_blank_listing', True, 'regression-corpus')
+        if set(x1) != set(x2):
+            run.violation('second export lists other nodes than the first: %s' % sorted(set(x1) ^ set(x2))[:4],
+                          {'workbook': wd, 'kind': 'exports-differ', 'nodes': sorted(set(x1) ^ set(x2))})
     except Exception as ex:
-        run.replay_witness('export-blank-listing', False, {'witness': 'raised ' + type(ex).__name__})
+        run.violation('export/import of the regression workbook raised %s' % type(ex).__name__, {'witness': 'known_witnesses/c09_blank_listing.json'})
+    # known-finding witnesses
     e1 = expr_of('=(A1%)%')
     run.replay_witness('double-percent', e1 == 'A1%%' and expr_of('=' + e1) is None, {'witness': '=(A1%)%', 'export': e1})
     e1 = expr_of('=-(-A1)')
